@@ -8,7 +8,7 @@ COMMON_ASSUME = [
 
 PROPS = {
     "C03": {
-        "channels": [{"cmd": "run-det"}],
+        "channels": [{"cmd": "run-det"}, {"cmd": "run-c14", "shards": 8}],
         "cone": r"^MISMATCH (walk|harness|driver)",
         "rule": "seed inputs (one positive per signature literal of /repo, testdata files, writer-produced tar/zip/OLE/JSON/HTML/CSV, multi-match inputs) x boundary truncations x limits {0,3072,len-1,len,len+1,1,2^32-1} x byte mutations + random short strings; for each, the chain Detect reports must equal the first-match walk over the regenerated tree driven by the verdicts Go's own detectors returned; distinct = hash of (limit, header); non-trivial = some non-root detector accepted",
         "proved": "walk = declarative first-match path (sound+complete), ancestors accept, no child of the result accepts, consulted only below accepting nodes: for every tree, every verdict function; instance on Detect over the regenerated tree",
@@ -36,7 +36,7 @@ PROPS = {
         "assumptions": COMMON_ASSUME + ["input shorter than 4 GiB"],
     },
     "C01": {
-        "channels": [{"cmd": "run-det"}],
+        "channels": [{"cmd": "run-det"}, {"cmd": "run-bombs", "shards": 16}],
         "cone": None,
         "rule": "same stream as C03 with every detector called directly under recover on an exact-capacity copy and on a prefix of a poisoned larger buffer; a panic, a poison-dependent verdict, a nil result or a 20 s hang is a property failure",
         "proved": "soundness of the bounds analysis (a GoLite term that passes it never evaluates to Panic, for every input, limit and environment); regenerated obligation: every combinator instance of tree.go and every GoLite detector term passes the analysis; every node of the regenerated tree has a model; the offset-computing detectors (zipContains, CRX, matchOleClsid, Ppt, Matroska, Tar): checked transliterations in which every index / slice expression carries Go's run-time check never reach Panic, for any input (uint32 wrap-around and 64-bit int as in the code), and equal the total models; the model's Detect is total and returns a registered chain ending in the root for every input and limit",
